@@ -121,9 +121,9 @@ def _printed(args):
     hdr = {"name": name, "conf": conf[0], "edges": g.n_edges(), "states": g.n_states(),
            "state_layout": "[mem, disk, up, [call kind, rule, pc], [att dir, peer, ip, tpt, next stage]]"}
     if mode == "cover":
-        walks = g.covering_walks(seed=ctx.seed, max_len=60)
+        walks = g.covering_walks(seed=ctx.seed, max_len=150)
         if ctx.tier == "thorough":
-            walks += g.covering_walks(seed=ctx.seed + 7919, max_len=90)
+            walks += g.covering_walks(seed=ctx.seed + 7919, max_len=250)
     else:
         n, depth = mode
         walks = g.random_walks(n, depth, seed=ctx.seed)
@@ -144,7 +144,7 @@ def run(ctx):
     tlc.stage(ctx)
     beh_dir, net_dir = ctx.sub("beh"), ctx.sub("net")
     einsts, rinsts, ninst = exhaustive_instances(ctx), replay_instances(ctx), net_instance(ctx)
-    net_mode = (60, 40) if thorough else (8, 30)
+    net_mode = "cover"
 
     # at most 4 TLC workers at a time: the exhaustive lane uses 2, the two printing lanes 1 each; the test binary
     # is built meanwhile
